@@ -1,4 +1,5 @@
 """C12 - layout and comments never change the result (Engine G)."""
+from .. import rules_flow as RF
 from .. import rules_grammar as RG
 
 ID = "C12"
@@ -23,3 +24,4 @@ def run(ctx, rep):
     rep.run(RG.rule_layout_transparent, ctx, rep, "L2")
     rep.run(RG.rule_single_entry, ctx, rep, "L3", min_sites=3)
     rep.run(RG.rule_verbatim_zones, ctx, rep, "L4")
+    rep.run(RF.rule_locals_defined, ctx, rep, "U1", packages=("gtwrap/interface_parser",), min_functions=3)
